@@ -230,7 +230,7 @@ Section Sys.
 
   (** ** httphandlers.go *)
   Record hreq := HReq { h_method : str; h_path : str; h_host : str }.
-  Definition m_get : str := [71; 69; 84].
+  Definition m_get : str := c15_http_method.   (* "GET": translated from the comparisons with http.MethodGet *)
   Definition resource_path (c : chal) : str := acme_http_challenge_base_path ++ [c_slash] ++ c_token c.
 
   Definition looks_like_challenge (r : hreq) : bool :=
